@@ -13,12 +13,13 @@ import (
 	"github.com/graphql-go/graphql"
 
 	"verif/internal/core"
+	"verif/internal/mon/gorou"
 )
 
 func init() {
 	core.Register(&core.Check{
 		ID:    "C15",
-		Level: "fault_enumeration",
+		Level: "fault_enumeration", Race: true,
 		Technique: "trace monitor over enumerated producer/consumer/cancellation schedules of the real graphql.Subscribe / graphql.ExecuteSubscription: " +
 			"harness-owned source channel, logical gates for every step, history checker on unique payloads (prefix / no duplicate / no reorder / no loss / " +
 			"one error result for failed requests / close observed), goroutine-dump state predicates for the liveness clause",
@@ -85,7 +86,27 @@ func selfCheck(c *core.Child) {
 	}
 }
 
+// pollRaces turns race-detector reports that appeared in this child's stderr
+// since the last call into violations of the case that just ran.
+func pollRaces(c *core.Child, rl *gorou.RaceLog) {
+	for _, rep := range rl.Poll() {
+		txt := rep.Text
+		if len(txt) > 6000 {
+			txt = txt[:6000]
+		}
+		if rep.HarnessOnly {
+			c.Violation("harness-race:"+rep.Sig, "data race between two harness accesses (harness bug, not a library violation)", map[string]interface{}{"report": txt})
+		} else {
+			c.Violation("race:"+rep.Sig, "the race detector reported a data race involving library code during a subscription schedule", map[string]interface{}{"report": txt})
+		}
+	}
+}
+
 func runBatch(c *core.Child) {
+	rl := gorou.OpenRaceLog(c.OutDir, c.Batch)
+	if raceEnabled {
+		c.Feature("race-detector:on")
+	}
 	if c.Batch == 0 || c.Only == "selfcheck" {
 		selfCheck(c)
 	}
@@ -99,6 +120,7 @@ func runBatch(c *core.Child) {
 			continue
 		}
 		runOne(c, &list[idx], id)
+		pollRaces(c, rl)
 		if stopBatch(c) {
 			return
 		}
@@ -116,6 +138,7 @@ func runBatch(c *core.Child) {
 		s := randomSched(core.NewRNG(c.Seed).Derive(core.HashString("C15/random"), uint64(idx)), maxN)
 		c.Feature("random-schedules")
 		runOne(c, &s, id)
+		pollRaces(c, rl)
 		if stopBatch(c) {
 			return
 		}
